@@ -174,7 +174,10 @@ class Link:
 
 
 class Net:
-    def __init__(self, per_process_serials=True):
+    def __init__(self, per_process_serials=True, shared_tables=False):
+        # shared_tables: all CLIENTS are connections of one process - one serial counter and one knownInterfaces for
+        # them (the bus stays a process of its own)
+        self.shared_tables = shared_tables
         authentication, bus, client, message = _mods()
         self._message = message
         self.notes = []            # what the harness could not reach in this tree (advisory, never a finding)
@@ -188,6 +191,7 @@ class Net:
         self.per_process_serials = per_process_serials
         self.serials = {BUS: 1}
         self._cur = None
+        self._peer = None
         from txdbus import interface as _interface, client as _client
         from twisted.internet import task
         self._iface_cls = _interface.DBusInterface
@@ -230,6 +234,8 @@ class Net:
             yield
             return
         owner, attr = self._ctr
+        prev_peer, self._peer = self._peer, who      # which peer's code is running (also when tables are shared)
+        who = self._key(who)
         I = self._iface_cls
         prev, saved = self._cur, getattr(owner, attr)
         if prev is not None:
@@ -240,16 +246,20 @@ class Net:
         try:
             yield
         finally:
+            self._peer = prev_peer
             self.serials[who] = getattr(owner, attr)
             self._cur = prev
             setattr(owner, attr, self.serials[prev] if prev is not None else saved)
             I.knownInterfaces = self.known[prev] if prev is not None else self._known_outside
 
+    def _key(self, who):
+        return 'clients' if (self.shared_tables and who != BUS) else who
+
     def known_of(self, who):
-        return self.known.setdefault(who, dict(self._known_base))
+        return self.known.setdefault(self._key(who), dict(self._known_base))
 
     def next_serial(self, who):
-        return self.serials.get(who, 1)
+        return self.serials.get(self._key(who), 1)
 
     # ------------------------------------------------------------------ construction
     def add_client(self, big_endian=False):
